@@ -183,10 +183,16 @@ func (cs *chkSelector) updatePoss(ch chunk.Chunk, chkSt *chkStatus, ri tmindex.R
 		var err error
 		if cs.tmRange.MinTs >= ri.MinTs {
 			// case 5
-			chkSt.minPos, err = cs.tmidx.GetPosForGreaterOrEqualTime(cs.jrnl.Name(), ri.Id, cs.tmRange.MinTs)
-			if err != nil {
-				chkSt.minPos = 0
-				cs.tiRebuilder.RebuildIndex(cs.jrnl.Name(), ch.Id(), false)
+			// The index answers with the LAST of its points which timestamp is not greater than the
+			// requested one, so records with the timestamp MinTs could be found before that point
+			// (a run of equal timestamps). Asking for MinTs-1 gives the point before the first one
+			// with the timestamp >= MinTs: all records before it are < MinTs.
+			if cs.tmRange.MinTs > math.MinInt64 {
+				chkSt.minPos, err = cs.tmidx.GetPosForGreaterOrEqualTime(cs.jrnl.Name(), ri.Id, cs.tmRange.MinTs-1)
+				if err != nil {
+					chkSt.minPos = 0
+					cs.tiRebuilder.RebuildIndex(cs.jrnl.Name(), ch.Id(), false)
+				}
 			}
 		}
 
